@@ -78,6 +78,14 @@ def _family(e, zone_level=False):
     return False
 
 
+def _wire_family(where, e, what):
+    """wire input fails in the format-error family: never with the TEXT family's SyntaxError"""
+    import dns.exception
+
+    if isinstance(e, dns.exception.SyntaxError):
+        raise Violation("exception", f"{where}: {what} raised the text-input exception {type(e).__name__}: {str(e)[:200]}", f"{where}:text-family:{exc_key(e)}")
+
+
 def _foreign(where, e, what):
     return Violation("exception", f"{where}: {what} raised {type(e).__name__}: {str(e)[:200]}", f"{where}:{exc_key(e)}")
 
@@ -174,6 +182,7 @@ def run_wire_message(case):
     except Exception as e:
         if not _family(e):
             raise _foreign("wire_message", e, f"from_wire({kw})")
+        _wire_family("wire_message", e, f"from_wire({kw})")
         classes.append("exc:" + type(e).__name__)
         if isinstance(e, dns.message.Truncated):
             m2 = e.message()
@@ -192,6 +201,7 @@ def run_wire_message(case):
                     raise Violation("continue_on_error", f"MessageError offset {er.offset!r} outside [12, {len(w)}]", "coe-offset")
                 if not isinstance(er.exception, Exception):
                     raise Violation("continue_on_error", "MessageError without an exception", "coe-exc")
+                _wire_family("wire_message", er.exception, "continue_on_error record")
             if errs:
                 classes.append("coe-errors-recorded")
             else:
@@ -335,6 +345,7 @@ def run_wire_name(case):
     except Exception as e:
         if not _family(e):
             raise _foreign("wire_name", e, "dns.name.from_wire")
+        _wire_family("wire_name", e, "dns.name.from_wire")
         return {"nontrivial": len(buf) > off, "classes": ["exc:" + type(e).__name__]}
     _usable("wire_name", lambda: (n.to_text(), n.to_wire(), n.to_unicode(), repr(n)), "rendering the decoded name")
     return {"nontrivial": True, "classes": ["parsed"]}
@@ -352,6 +363,7 @@ def run_wire_rdata(case):
     except Exception as e:
         if not _family(e):
             raise _foreign("wire_rdata", e, f"dns.rdata.from_wire({case['type']})")
+        _wire_family("wire_rdata", e, f"dns.rdata.from_wire({case['type']})")
         return {"nontrivial": len(w) > 0, "classes": ["exc:" + type(e).__name__, "rej:" + case["type"]]}
     o = origin or dns.name.root
     _usable("wire_rdata", lambda: rd.to_text(), f"{case['type']}.to_text()")
@@ -371,7 +383,24 @@ def wire_rdata_cases(draw):
     name = R.type_choice(draw, R.ALL_TYPES)
     mode = draw(st.integers(0, 6))
     pre = draw(st.one_of(st.just(b""), st.just(b"\x03www\x07example\x00\x01a\xc0\x04"), st.binary(max_size=12)))
-    if mode == 0:
+    if name == "OPT" and draw(st.booleans()):
+        # hostile EDNS options: well-framed (code, length, value) triples whose VALUES break the
+        # option's own rules -- ECS prefixes beyond the family's width with more or fewer address
+        # octets than the prefix needs, unknown families, short cookies, odd lengths everywhere
+        out = bytearray()
+        for _ in range(draw(st.integers(1, 3))):
+            code = draw(st.sampled_from([8, 8, 8, 10, 11, 15, 18, 3, 5, 6, 7, 9, 13, 22, 25]))
+            if code == 8:
+                fam = draw(st.sampled_from([1, 1, 2, 2, 0, 3, 65535]))
+                src = draw(st.sampled_from([0, 8, 24, 32, 33, 40, 48, 64, 128, 129, 136, 255]))
+                scope = draw(st.sampled_from([0, 32, 33, 128, 129, 255]))
+                v = struct.pack("!HBB", fam, src, scope) + draw(st.binary(max_size=20))
+            else:
+                v = draw(st.binary(max_size=draw(st.sampled_from([0, 1, 2, 3, 7, 8, 9, 40, 41]))))
+            out += struct.pack("!HH", code, len(v)) + v
+        w = bytes(out)
+        mode = 7
+    elif mode == 0:
         w = draw(st.binary(max_size=40))
     else:
         wire, _ = R.build(draw, name, {})
